@@ -977,7 +977,7 @@ func (a *analysis) oracleC12() verdict {
 				want++
 			}
 			if spec.OnDone {
-				want++
+				want += 2 // the on-complete / on-abort text and the meta-decorated name
 				if g.C || g.A {
 					ri.filler = true // replaced by a message token
 					if spec.Filler != "bar" {
@@ -1079,7 +1079,7 @@ func (a *analysis) oracleC12() verdict {
 			}
 			appS := app.String()
 			if sc.Bars[r.g.ID].OnDone {
-				appS += r.toks[len(r.toks)-1]
+				appS += r.toks[len(r.toks)-2] + r.toks[len(r.toks)-1]
 			}
 			line := r.g.Main
 			if !strings.HasPrefix(line, pre.String()) {
